@@ -29,6 +29,8 @@ fn main() {
         "tree" => tree::run(seed, thorough),
         "topo" => topo::run(seed, thorough),
         "e2e.str" => e2e::run_strings(seed, thorough, if thorough { 20000 } else { 1200 }),
+        "e2e.mat" => e2e::run_matrices(seed, thorough, if thorough { 15000 } else { 900 }),
+        "e2e.table" => e2e::run_table(seed, thorough, if thorough { 20000 } else { 1200 }),
         _ => {
             eprintln!("unknown stage {stage}");
             std::process::exit(2);
